@@ -953,6 +953,13 @@ impl RState {
                 self.report("token_passed_without_asking", "token passed although no application was asked in this visit and the hold time cannot be over".into());
                 return;
             }
+            // ... and with some applications asked but not all of them: "the token is passed once every
+            // application has declined once or the hold time is over" (found by a seeded change that served
+            // only one application per token visit)
+            if n > 1 && self.c15.holding && !after_claim && !self.c15.disrupted && self.cfg.ttr.is_none() && !self.c15.asked_this_visit.is_empty() && self.c15.declined_this_visit.len() < n {
+                self.report("token_passed_before_every_application_declined", format!("token passed after {:?} declined; {} applications, the hold time cannot be over", self.c15.declined_this_visit, n));
+                return;
+            }
             self.c15.holding = da == self.cfg.ts;
             self.c15.asked_this_visit.clear();
                     self.c15.hp_sent_this_visit = false;
